@@ -184,6 +184,9 @@ def run(ctx):
         if len(op.terms) == 0:
             op = FermionOperator(((0, 1), (0, 0)), 1.0)
         add("op", op)
+        # operators that are already in normal order and carry a constant (a conversion must not consume it)
+        add("op", FermionOperator(((2 % (2 * norb), 1), (0, 0)), 1.5) + FermionOperator((), 0.75))
+        add("op", FermionOperator(((0, 1), (0, 0)), -0.5) + FermionOperator(((1, 1), (1, 0)), 0.25) + FermionOperator((), 1.25))
         se0 = rng.choice([0.0, 0.7])
         mk_s = (lambda o=copy.deepcopy(op), e=se0: fqe.get_sparse_hamiltonian(copy.deepcopy(o), e_0=e))
         makers[add("ham", mk_s())] = mk_s
@@ -253,7 +256,13 @@ def run(ctx):
                     thunk = (lambda a=pool[i][1]: fqe.to_cirq(a))
                 elif kind == "build":
                     ops = [x for x in range(len(pool)) if pool[x][0] == "op"]
-                    thunk = (lambda o=pool[rng.choice(ops)][1], n=norb: fqe.get_hamiltonian_from_openfermion(o, norb=n))
+                    route = rng.choice(["from_openfermion", "sparse", "apply"])
+                    if route == "from_openfermion":
+                        thunk = (lambda o=pool[rng.choice(ops)][1], n=norb: fqe.get_hamiltonian_from_openfermion(o, norb=n))
+                    elif route == "sparse":
+                        thunk = (lambda o=pool[rng.choice(ops)][1]: fqe.get_sparse_hamiltonian(o))
+                    else:
+                        thunk = (lambda a=pool[i][1], o=pool[rng.choice(ops)][1]: a.apply(o))
                 elif kind == "iht":
                     if pool[hm][0] != "ham":
                         continue
